@@ -245,16 +245,16 @@ func (t *tTx) toGo() *common.SignedTransaction {
 			}
 			if d := in.Deposit; d != nil {
 				gi.Deposit = &common.DepositData{Chain: h32(d.Chain), AssetKey: string(d.AssetKey),
-					Transaction: string(d.Transaction), Index: d.Index, Amount: integerFromBig(d.Amount)}
+					Transaction: string(d.Transaction), Index: d.Index, Amount: c06Integer(d.Amount)}
 			}
 			if m := in.Mint; m != nil {
-				gi.Mint = &common.MintData{Group: string(m.Group), Batch: m.Batch, Amount: integerFromBig(m.Amount)}
+				gi.Mint = &common.MintData{Group: string(m.Group), Batch: m.Batch, Amount: c06Integer(m.Amount)}
 			}
 			tx.Inputs = append(tx.Inputs, gi)
 		}
 	}
 	for _, o := range t.Outputs {
-		g := &common.Output{Type: o.Type, Amount: integerFromBig(o.Amount), Mask: k32(o.Mask), Keys: make([]*crypto.Key, 0)}
+		g := &common.Output{Type: o.Type, Amount: c06Integer(o.Amount), Mask: k32(o.Mask), Keys: make([]*crypto.Key, 0)}
 		if len(o.Script) > 0 {
 			g.Script = common.Script(o.Script)
 		}
@@ -286,6 +286,17 @@ func (t *tTx) toGo() *common.SignedTransaction {
 		signed.SignaturesMap = append(signed.SignaturesMap, gm)
 	}
 	return signed
+}
+
+// c06Integer builds a common.Integer from any non-negative big.Int. Values that need more
+// than 65535 bytes cannot pass through the length-prefixed decoder trick of integerFromBig
+// (the two-byte length wraps); they go through the decimal parser (value = units of 10^-8).
+func c06Integer(n *big.Int) common.Integer {
+	if len(n.Bytes()) <= 65535 {
+		return integerFromBig(n)
+	}
+	q, r := new(big.Int).QuoRem(n, pow10_8, new(big.Int))
+	return common.NewIntegerFromString(fmt.Sprintf("%s.%08d", q.String(), r.Int64()))
 }
 
 func cp(b []byte) []byte { return append([]byte{}, b...) }
@@ -602,7 +613,7 @@ func genOutput(r *Rand, pos int) *tOutput {
 		for i := 0; i < pos%3; i++ {
 			tx.Outputs = append(tx.Outputs, &common.Output{})
 		}
-		tx.AddOutputWithType(o.Type, acc, common.NewThresholdScript(uint8(r.Range(1, n))), integerFromBig(o.Amount), r.Bytes(64))
+		tx.AddOutputWithType(o.Type, acc, common.NewThresholdScript(uint8(r.Range(1, n))), c06Integer(o.Amount), r.Bytes(64))
 		g := tx.Outputs[len(tx.Outputs)-1]
 		o.Mask, o.Script = cp(g.Mask[:]), cp(g.Script)
 		for _, k := range g.Keys {
@@ -742,7 +753,7 @@ func genBoundaryTx(r *Rand, tier string) *tTx {
 		}
 		t.Inputs = append(t.Inputs, in)
 	case 11:
-		if tier == "thorough" && r.Chance(1, 4) {
+		if tier == "thorough" && r.Chance(1, 40) {
 			n := Pick(r, []int{65535, 65536})
 			v := new(big.Int).Lsh(big.NewInt(1), uint(8*n-1))
 			t.Outputs = append(t.Outputs, &tOutput{Amount: v, Mask: r.Bytes(32)})
@@ -1282,7 +1293,8 @@ func init() {
 				lo(withSigs(many(256)...), knobs{}), lo(base(), knobs{trailing: []byte{0}}),
 				lo(withAgg([]int{3, 65536}), knobs{forceOrd: true}), lo(withAgg([]int{65535}), knobs{forceOrd: true}),
 				"dec -", "dec 77770005", "dec 7777"},
-			{"big 0 0", "big 65536 1", "big 300000 7"},
+			// around config.TransactionMaximumSize (88 bytes of framing + extra) and ExtraSizeStorageCapacity
+			{"big 0 0", "big 65536 1", "big 300000 7", "big 4194216 1", "big 4194217 1", "big 4194304 2", "big 4194305 2"},
 		},
 		Gen: func(r *Rand, i int, tier string) []string {
 			switch r.Intn(10) {
